@@ -303,24 +303,20 @@ where
 
     /// Read the 'card specific data' block.
     fn read_csd(&mut self) -> Result<Csd, Error> {
-        match self.card_type {
-            Some(CardType::SD1) => {
-                let mut csd = CsdV1::new();
-                if self.card_command(CMD9, 0)? != 0 {
-                    return Err(Error::RegisterReadError);
-                }
-                self.read_data(&mut csd.data)?;
-                Ok(Csd::V1(csd))
-            }
-            Some(CardType::SD2 | CardType::SDHC) => {
-                let mut csd = CsdV2::new();
-                if self.card_command(CMD9, 0)? != 0 {
-                    return Err(Error::RegisterReadError);
-                }
-                self.read_data(&mut csd.data)?;
-                Ok(Csd::V2(csd))
-            }
-            None => Err(Error::CardNotFound),
+        if self.card_type.is_none() {
+            return Err(Error::CardNotFound);
+        }
+        let mut data = [0u8; 16];
+        if self.card_command(CMD9, 0)? != 0 {
+            return Err(Error::RegisterReadError);
+        }
+        self.read_data(&mut data)?;
+        // The layout of the register is given by its own CSD_STRUCTURE field
+        // (the top two bits), not by the card kind: a version 2 *standard
+        // capacity* card still uses the version 1.0 layout.
+        match data[0] >> 6 {
+            0 => Ok(Csd::V1(CsdV1 { data })),
+            _ => Ok(Csd::V2(CsdV2 { data })),
         }
     }
 
